@@ -1,7 +1,7 @@
 (* C16 — Compiled bytecode behaves like the tree-walking evaluator.
    Property theorems only; proofs are [exact <lemma of CompileProofs>]. *)
 From Coq Require Import ZArith NArith List String.
-From EvyV Require Import Base Bytecode SymTab Vm Compile CompileProofs.
+From EvyV Require Import Base Bytecode SymTab Vm Compile CompileProofs CompileWfProofs.
 Import ListNotations.
 Open Scope list_scope.
 
@@ -78,7 +78,52 @@ Theorem C16_compile_correct_partial : forall e : expr, efrag e = true ->
 Proof. exact compile_expr_correct. Qed.
 Print Assumptions C16_compile_correct_partial.
 
+(* ---------- the compiler's output is well formed (straight-line fragment) ---------- *)
+(* For every top-level program made of declarations `x := e` and assignments
+   `x = e` with e in the expression fragment, what the compiler model emits
+   satisfies the judgment WF of C17 — under the explicit guard that the
+   constant and global counts fit the 16-bit operands.  (_partial: programs
+   with jumps — if/while/for and their back-patching — are not covered by
+   this theorem; they are covered per emitted program by the verified
+   validator wf_check of C17, which the C17 harness runs on the real
+   compiler's output and Example C16_ex_program_wf below runs on the model.) *)
+Theorem C16_compile_wf_partial : forall (p : slist) (st : cstate),
+  sfrag p = true -> compile p = COk st ->
+  (N.of_nat (List.length (cconsts st)) <= 65536)%N -> (st_global_count (csym st) <= 65536)%N ->
+  WF {| bcode := out_code (bytecode_of st); nconsts := N.of_nat (List.length (out_consts (bytecode_of st)));
+        gcount := out_gcount (bytecode_of st); lcount := out_lcount (bytecode_of st) |}.
+Proof. exact compile_wf_partial. Qed.
+Print Assumptions C16_compile_wf_partial.
+
+(* Beyond the guard the statement fails: from a compiler state that already
+   holds 65536 constants, the literal 1 is compiled to `OpConstant 0` — the
+   operand is not the index of the constant just added (Make truncates). *)
+Theorem C16_compile_wf_large_refuted :
+  exists st : cstate,
+    N.of_nat (List.length (cconsts st)) = 65536%N /\
+    match compile_expr false (ENum PrimFloat.one) st with
+    | COk st' =>
+        N.of_nat (List.length (cconsts st')) = 65537%N /\
+        match decode1 (ccode st') with
+        | Some (i, rest) => iop i = Gen.Opcodes.OpConstant /\ arg0 i = 0%N /\ rest = []
+        | None => False
+        end
+    | CErr _ => False
+    end.
+Proof.
+  exists {| ccode := []; cconsts := repeat (KNum PrimFloat.zero) (N.to_nat 65536); csym := new_symtab; cbreaks := [] |}.
+  vm_compute. repeat split; reflexivity.
+Qed.
+Print Assumptions C16_compile_wf_large_refuted.
+
 (* ---------- non-vacuity ---------- *)
+Example C16_ex_wf_fragment :
+  let p := SCons (SDecl (s_ "x") (ENum (float_of_Z 7)))
+          (SCons (SDecl (s_ "b") (EBin BLt TNum TNum (EBin BPlus TNum TNum (EVar (s_ "x")) (ENum (float_of_Z 2))) (ENum (float_of_Z 30))))
+          (SCons (SAssign (EVar (s_ "x")) (EUn UMinus (EVar (s_ "x")))) SNil)) in
+  sfrag p = true /\ match compile p with COk st => List.length (ccode st) = 27%nat | CErr _ => False end.
+Proof. vm_compute. split; reflexivity. Qed.
+
 (* x := 7 already compiled; then (x + 2) * 3 < 30 and "ab" + "c" == "abc" *)
 Definition ex_st : cstate :=
   match compile_stmt false (SDecl (s_ "x") (ENum (float_of_Z 7))) cinit with COk st => st | CErr _ => cinit end.
